@@ -5,6 +5,7 @@ Each check_Cxx(ctx) generates cases, runs both sides, records
     the implementation is compared with itself, for outcome-fixing properties with
     the proved model on in-scope inputs."""
 from .core import *
+from . import scale
 from .gen import *
 from .framework import Ctx
 import hashlib
@@ -55,6 +56,11 @@ def check_C14(ctx):
             for t in ['x.name eq "bob"', 'x.n eq 1', 'x.a.b eq 1', 'x eq 1', 'x eq "bob"', 'x pr', 'x.name pr', 'n.x.name eq "bob"', 'n.x pr', 'n.x.n eq 1',
                       'not (x.name eq "bob")', 'x.name eq "bob" or k eq 1', 'k eq 1 or x.name eq "bob"', 'k eq 2 or n.x.name eq "bob"', 'x.name in ["bob"]']:
                 cs.eval(t, o, 'hostile-object')
+    # size and shape beyond small random rules (harness/scale.py)
+    for (t_, o_, fam_, *_m) in scale.long_texts(ctx):
+        cs.eval(t_, o_, fam_)
+    for (t_, o_, fam_, *_m) in scale.long_fail_chains(ctx):
+        cs.eval(t_, o_, fam_)
     res = ctx.run(cs)
     ctx.compare(cs.cases, res, ['verdict', 'err', 'ev3'], nontrivial=lambda c, mo: True)
     for c in cs.cases:
@@ -96,6 +102,11 @@ def check_C10(ctx):
                     ctxs = leak_contexts(leaf) if (ctx.tier != 'quick' or ctx.rng.random() < 0.15) else [leaf]
                     for t in ctxs:
                         cs.eval(t, o, 'nested-null-bool-pr', leaf=leaf)
+    # size and shape beyond small random rules (harness/scale.py)
+    for (t_, o_, fam_, *_m) in scale.deep_paths(ctx):
+        cs.eval(t_, o_, fam_)
+    for (t_, o_, fam_, *_m) in scale.wide_objects(ctx):
+        cs.eval(t_, o_, fam_)
     res = ctx.run(cs)
     ctx.exhaustive = True
     ctx.compare(cs.cases, res, ['verdict', 'err'], scope=accepted)
@@ -404,6 +415,9 @@ def check_C08(ctx):
             a = ctx.rng.choice([S(pick), S(pick.swapcase()), S(pick + 'x'), ('str', pick.upper().encode()), I(1), S(rand_str(ctx.rng, 3))])
         fmt = ctx.rng.choice(['%s', '%s', 'k eq 1 and %s', '%s or k eq 2', 'not (%s)', 'k in [3,4] or %s', '%s and k in [1]', 'q in ["z"] or %s'])
         add_group((k, l), a, 'in-random', path=ctx.rng.choice([['x'], ['n', 'x']]), ctxfmt=fmt)
+    # size and shape beyond small random rules (harness/scale.py)
+    for (t_, o_, fam_, *_m) in scale.long_lists(ctx):
+        cs.eval(t_, o_, fam_)
     res = ctx.run(cs)
     ctx.compare(cs.cases, res, ['verdict', 'err'], scope=accepted)
     for c_in, c_eq, vs in groups:
@@ -452,6 +466,11 @@ def check_C06(ctx):
             for fmt in ['%s or %s', 'not (%s) and %s', '(%s or %s) or z pr', '%s or (%s and z pr)', 'k eq 2 or %s or %s', 'k eq 1 and %s and %s']:
                 for o in (obj({}), obj({'k': I(1), 'a': I(1), 'b': S('x')}), obj({'a': ('nil',), 'k': I(1)})):
                     cs.eval(fmt % (h, t), o, 'sticky')
+    # size and shape beyond small random rules (harness/scale.py)
+    for (t_, o_, fam_, *_m) in scale.long_fail_chains(ctx):
+        cs.eval(t_, o_, fam_)
+    for (t_, o_, fam_, *_m) in scale.long_chains(ctx):
+        cs.eval(t_, o_, fam_)
     res = ctx.run(cs)
     ctx.compare(cs.cases, res, ['verdict', 'err'], scope=accepted)
     spec_violations(ctx, 'failure/verdict')
@@ -490,6 +509,13 @@ def check_C16(ctx):
                     ops = [('p', o1), ('d',), ('p', o2), ('d',)] + ([('p', o1), ('d',)] if ctx.rng.random() < 0.3 else [])
                     h = cs.hist(text, ops, 'reuse-dbg')
                     hs.append((h, ops, [cs.eval(text, o[1], 'reuse-fresh') if o[0] == 'p' else None for o in ops]))
+    # size and shape beyond small random rules (harness/scale.py)
+    for (t_, o_, fam_, *_m) in scale.many_undecided(ctx):
+        cs.eval(t_, o_, fam_)
+    for (t_, o_, fam_, *_m) in scale.long_fail_chains(ctx):
+        cs.eval(t_, o_, fam_)
+    for (t_, o_, fam_, *_m) in scale.deep_paths(ctx):
+        cs.eval(t_, o_, fam_)
     res = ctx.run(cs)
     ctx.compare([c for c in cs.cases if c.kind != 'hist'], res, ['dbg'], scope=accepted)
     ctx.compare([c for c in cs.cases if c.kind == 'hist'], res, ['out'], nontrivial=lambda c, mo: True)
@@ -727,6 +753,10 @@ def check_C01(ctx):
             bits = {'a': any(k == b'a' for k, _ in o[1]), 'b': any(k == b'b' for k, _ in o[1])}
             c = cs.eval(render(q), o, 'deep', q=q)
             groups.append((c, q, None, None, bits))
+    # size and shape beyond small random rules (harness/scale.py)
+    for (t_, o_, fam_, q_) in scale.long_chains(ctx):
+        c = cs.eval(t_, o_, fam_, q=q_)
+        groups.append((c, q_, None, None, {k.decode(): True for k, _ in o_[1]}))
     res = ctx.run(cs)
     ctx.compare([c for c in cs.cases if c.kind == 'eval'], res, ['verdict', 'err'], scope=accepted)
     ctx.compare([c for c in cs.cases if c.kind == 'syntax'], res, ['lexok', 'accept', 'tree'])
@@ -740,8 +770,8 @@ def check_C01(ctx):
                 continue      # out of C01's scope: some comparison is not individually error-free
             want = bool_eval(q, lambda leaf: lo[id(leaf)]['verdict'] == '1')
             extra = list(alone.values())
-        elif isinstance(bits, dict) and bits and isinstance(next(iter(bits)), str):
-            want = bool_eval(q, lambda leaf: bits[leaf[1][0]])
+        elif isinstance(bits, dict) and (not bits or isinstance(next(iter(bits)), str)):
+            want = bool_eval(q, lambda leaf: bits.get(leaf[1][0], False))
             extra = []
         else:
             want = bool_eval(q, lambda leaf: bits[id(leaf)])
@@ -809,6 +839,14 @@ def check_C02(ctx):
         c = cs.eval(render(q), o, 'shape', q=q)
         alone = {id(l): cs.eval(render(l), o, 'shape-leaf') for l in leaves(q)}
         rnd.append((c, q, alone))
+    # size and shape beyond small random rules (harness/scale.py)
+    deep_groups = []
+    for (t_, o_, fam_, m_) in scale.deep_paths(ctx):
+        c_ = cs.eval(t_, o_, fam_)
+        if m_:
+            deep_groups.append((c_, m_[1], [cs.eval(ct_, o_, 'deep-path-alone') for ct_ in m_[0]]))
+    for (t_, o_, fam_, *_m) in scale.wide_objects(ctx):
+        cs.eval(t_, o_, fam_)
     res = ctx.run(cs)
     ctx.compare(cs.cases, res, ['verdict', 'err', 'dbg'], scope=accepted)
     def comb(cb, L, P):
@@ -830,6 +868,14 @@ def check_C02(ctx):
         want = bool_eval(q, lambda leaf: lo[id(leaf)]['verdict'] == '1')
         if io['err'] != 'none' or (io['verdict'] == '1') != want:
             ctx.violation('a comparison behaves differently inside a compound (verdict %s, from stand-alone comparisons %s)' % (io['verdict'], want), [c] + list(alone.values())[:6])
+    for c, fn, alone in deep_groups:
+        io = res.impl.get(c.id)
+        lo = [res.impl.get(x.id) for x in alone]
+        if not io or any(x is None or x['err'] != 'none' for x in lo):
+            continue
+        want = bool(fn(*[x['verdict'] == '1' for x in lo]))
+        if io['err'] != 'none' or (io['verdict'] == '1') != want:
+            ctx.violation('a comparison on a long path behaves differently inside a compound (verdict %s/%s, from its comparisons alone %s)' % (io['verdict'], io['err'], want), [c] + alone)
     ctx.exhaustive = not ctx.quick
     spread_samples(ctx, cs, res)
 
@@ -887,6 +933,9 @@ def check_C17(ctx):
             q, info = random_query(ctx.rng, ctx.rng.randint(1, 4), lambda: typed_leaf(ctx.rng, allow_fail=True))
             subs.append(render(q, Style(ctx.rng) if ctx.rng.random() < 0.3 else Style())); infos += info
         add(subs[0], subs[1], subs[2], object_for(ctx.rng, infos), 'law-random')
+    # size and shape beyond small random rules (harness/scale.py)
+    for (t_, o_, fam_, *_m) in scale.long_fail_chains(ctx):
+        cs.eval(t_, o_, fam_)
     res = ctx.run(cs)
     ctx.compare(cs.cases, res, ['verdict', 'err'], scope=accepted)
     for name, l, r, cond, a1, b1 in inst:
@@ -928,6 +977,16 @@ def check_C15(ctx):
             return ('paren', False, y) if ctx.rng.random() < 0.3 else y
         vs.append(cs.eval(render(normalize(wrap_some(q)), Style(ctx.rng)), o, 'extra-parens', q=q))
         groups.append((canon, vs))
+    # optional blanks / newlines / parentheses in quantity, literals with operators, parentheses and escapes (harness/scale.py)
+    sc_objs = [obj({'x': I(1), 'y': I(2), 'z': I(3)}), obj({'x': I(1)}), obj({'x': S('a EQ b'), 'y': S('\\')}), obj({'x': S('C:\\\\'), 'y': S('a"b')}), obj({}),
+               obj({'x': S('\\\\'), 'y': S('\\\\')}), obj({'k19': I(19), 'k39': I(39), 'k69': I(69)}), obj({'k10': I(10), 'k20': I(20), 'k35': I(35)})]
+    for base, variants in scale.spellings_at_scale(ctx):
+        for o in sc_objs:
+            canon = cs.eval(base, o, 'spell-scale')
+            groups.append((canon, [cs.eval(v, o, 'spell-scale') for v in variants if not v.startswith('x in [')]))
+            for v in variants:
+                if v.startswith('x in ['):
+                    cs.eval(v, o, 'spell-scale')
     res = ctx.run(cs)
     ctx.compare(cs.cases, res, ['accept', 'verdict', 'err', 'dbg'])
     for canon, vs in groups:
@@ -950,6 +1009,9 @@ def check_C05(ctx):
     for t in FIXED_TEXTS:
         cs.eval(t, obj({'x': I(1), 'y': I(2), 'z': I(3), 'order': I(1), 'a-b_c:d': I(1), 'prx': I(1)}), 'text-fixed')
         cs.eval(t, obj({'x': I(0), 'y': I(2)}), 'text-fixed')
+    # size and shape beyond small random rules (harness/scale.py)
+    for (t_, o_, fam_, *_m) in scale.long_texts(ctx):
+        cs.eval(t_, o_, fam_)
     res = ctx.run(cs)
     ctx.compare(cs.cases, res, ['accept', 'verdict', 'err', 'ev3'])
     nrej = 0
@@ -1005,7 +1067,7 @@ def check_C20(ctx):
     spread_samples(ctx, cs, res)
 
 # ----------------------------------------------------------------------------
-HOSTILE = [('strpanic',), ('strnilptr',), ('strselfpanic',), ('nilmap',), ('nil',), F(float('nan')), F(float('inf')), F(float('-inf'))] + [('o', t) for t in list(range(21)) + [22, 23]] + \
+HOSTILE = [('strpanic',), ('strnilptr',), ('strselfpanic',), ('nilmap',), ('nil',), F(float('nan')), F(float('inf')), F(float('-inf'))] + [('o', t) for t in list(range(21)) + [22, 23, 24, 25, 26, 27]] + \
           [('str', b'abc'), ('strptr', b'1.0.0'), ('m', [(b'y', ('strpanic',))]), ('m', [(b'y', ('o', 3))])]
 
 def check_C07(ctx):
@@ -1139,7 +1201,7 @@ def check_C13(ctx):
     fam_leaf_exh(cs, ctx.rng, stride=ctx.n(7, 1))
     fail_compounds(ctx, cs, ctx.n(500, 10000))
     for h in HOSTILE:
-        for t in ['x eq "a"', 'x.y eq 1', 'x in ["a"]', 'x eq 1', 'n.x pr and x co "a"', 'x pr or x.y.z eq 1']:
+        for t in ['x eq "a"', 'x.y eq 1', 'x in ["a"]', 'x eq 1', 'n.x pr and x co "a"', 'x pr or x.y.z eq 1', 'x.name eq "bob"', 'x.k1 eq 1 or n.x.k1 pr', 'x in [1, 7, 14]']:
             cs.eval(t, obj({'x': h, 'n': {'x': h}}), 'hostile')
     hs = []
     for _ in range(ctx.n(100, 2000)):
@@ -1152,6 +1214,13 @@ def check_C13(ctx):
         for t in ['x.a eq 1 and y.a eq 1', 'x.b.c eq 2 or z.w.b.c eq 2', 'x.q.r eq 1 or y.q.r pr', 'x.s eq "V" and z.w.s co "v"', 'x.b.c in [1,2] and y.c in [2]',
                   'n.x.c eq 2', 'x.a.b.c eq 1', 'y.zz pr', 'x pr and y pr', 'x.b.c gt null', 'x eq 1 or y.b eq 2', 'z.w.b.q.r eq 1 or x.b.q eq null']:
             cs.evals(t, o, 'shared-subobjects')
+    # size and shape beyond small random rules (harness/scale.py)
+    for (t_, o_, fam_, *_m) in scale.wide_objects(ctx):
+        cs.eval(t_, o_, fam_)
+    for (t_, o_, fam_, *_m) in scale.deep_paths(ctx):
+        cs.eval(t_, o_, fam_)
+    for (t_, o_, fam_, *_m) in scale.long_lists(ctx):
+        cs.eval(t_, o_, fam_)
     res = ctx.run(cs)
     ctx.compare([c for c in cs.cases if c.kind in ('eval', 'evals')], res, ['verdict', 'err'])
     for c in cs.cases:
